@@ -40,7 +40,7 @@ func init() {
 	prop("C12", []string{"R24", "R61", "R29", "R25", "R31", "R45", "R49", "R50", "R56", "R62", "R1r"},
 		"necessary conditions only: short reads are handled wherever the stream is read (R24); a failing reader is never taken for end of input (R29); all nine options are consulted (R25); reader errors propagate (R31); type inference tries int, float, bool, string in that order (R45); two necessary conditions of fragmentation independence: no scanner decision is taken on the buffer fill level without refilling (R50), and per-column byte buffers never share a backing array (R49).",
 		"THE CORE OF THE PROPERTY: that the scanner's output is independent of where read boundaries fall, quote compaction, CRLF handling, buffer growth (a hand-written state machine over all documents and read schedules).")
-	prop("C13", []string{"R26", "R6", "R25", "R30", "R34", "R1w", "R1r"},
+	prop("C13", []string{"R26", "R6", "R25", "R30", "R34", "R1w", "R1r", "R69"},
 		"necessary conditions only: writer and reader use inverse conversions with lossless arguments for every type, NaN/null <-> empty cell (R26); rows and cells are emitted through the index (R6); Header/Columns are consulted (R25); write failures surface (R30).",
 		"agreement of encoding/csv's quoting with the custom scanner's unquoting for arbitrary bytes; round-trip equality is value level.")
 	prop("C14", []string{"R27", "R28", "R58", "R6"},
